@@ -280,6 +280,11 @@ pub fn dir_case(rng: &mut Rng, cfg: &str, o: &DirOpts, out: &mut Vec<String>) {
                         }
                         out.push(format!("adv.lookup {hu} version:{v} swap.fresh:{other}"));
                         out.push(format!("adv.lookup {hu} version:{v} marker.rootproof fresh.anchor:0"));
+                        // the retired label "proved" absent under another length (its 32 bytes are bound by the VRF
+                        // proof, its length must be too)
+                        for n in [255u32, 254, 248, 1, 0] {
+                            out.push(format!("adv.lookup {hu} version:{v} fresh.len:{n}"));
+                        }
                     }
                 }
                 out.push(format!("adv.lookup {hu} fresh.anchor:0"));
@@ -291,6 +296,11 @@ pub fn dir_case(rng: &mut Rng, cfg: &str, o: &DirOpts, out: &mut Vec<String>) {
                 out.push(format!("adv.lookup {hu} vfield:{}", nver[i] + 1));
                 out.push(format!("adv.lookup {hu} vfield:{}", nver[i].saturating_sub(1)));
                 out.push(format!("adv.lookup {hu} vfield:{}", epoch + 5));
+                out.push(format!("adv.lookup {hu} fresh.len:255"));
+                out.push(format!("adv.lookup {hu} fresh.len:257"));
+                out.push(format!("adv.lookup {hu} exist.len:255"));
+                out.push(format!("adv.lookup {hu} marker.len:255"));
+                out.push(format!("adv.lookup {hu} exist.len:0"));
                 out.push(format!("adv.lookup {hu} nonce.zero"));
                 out.push(format!("adv.lookup {hu} marker.rootproof"));
                 out.push(format!("adv.lookup {hu} exist.rootproof"));
@@ -320,6 +330,14 @@ pub fn dir_case(rng: &mut Rng, cfg: &str, o: &DirOpts, out: &mut Vec<String>) {
                             out.push(format!("{base} drop.newest:1 future.anchor:0:{k}"));
                         }
                         out.push(format!("{base} drop.newest:2 future.anchor:0:0 future.anchor:1:0"));
+                        // hidden newest version(s) "proved" absent under another label length
+                        for nl in [255u32, 248, 0] {
+                            out.push(format!("{base} drop.newest:1 future.len:0:{nl}"));
+                        }
+                        out.push(format!("{base} drop.newest:2 future.len:0:255 future.len:1:255"));
+                        out.push(format!("{base} future.len:0:255"));
+                        out.push(format!("{base} past.len:0:255"));
+                        out.push(format!("{base} prev.len:0:255"));
                         out.push(format!("{base} drop.oldest:1"));
                         out.push(format!("{base} gap:1"));
                         out.push(format!("{base} gap:0"));
